@@ -9,6 +9,7 @@ def run(ctx, rep):
     regexrules.rule_class_predicates(ctx, rep, "C09-R3")
     regexrules.rule_snapshot_ownership(ctx, rep, "C09-R4")
     regexrules.rule_positions_nonnegative(ctx, rep, "C09-R5")
+    regexrules.rule_numeric_catch_all(ctx, rep, "C09-R6")
     rep.undecided += [
         "backtracking priorities, capture reset and empty-iteration semantics for all (pattern, subject) pairs (differential property)",
     ]
